@@ -46,6 +46,7 @@ def _analyses():
     from .analyses import a16_perm
     from .analyses import a17_labels
     from .analyses import a4_kind as a4
+    from .analyses import a4_dtype
     from .analyses import a5_factor, a5_linear, a7_axis, a7_order, a8_taint
     from .analyses import kernel_api as ka
     from .analyses import kernel_core as kc
@@ -82,9 +83,9 @@ def _analyses():
             "factors IS adjointness for all inputs); linearity in g of every rule closure (two-point domain over linear_in facts); 'same' entries only on linear pairs.",
         ),
         "C05": (
-            [a3.vjp, a3.helpers, a3_reduce.reductions, km.squeeze_axes, a4.match, kc.zero_paths, a1.types, a2.layout],
+            [a3.vjp, a3.helpers, a3_reduce.reductions, km.squeeze_axes, a4.match, kc.zero_paths, a1.types, a2.layout, a4_dtype.dtype_comparisons],
             "A gradient lives in its argument's space: shape support under broadcasting (A3.vjp), real/complex kind for every kind assignment of the arguments (A4.match, exhaustive 2^n), "
-            "zeros of the argument's / output's space on independent paths (A13.zero), one Box and one VSpace per differentiable type (A1.types), container layout (A2.layout).",
+            "kind decisions never made by dtype == <Python scalar type> (A4.dtypecmp), zeros of the argument's / output's space on independent paths (A13.zero), one Box and one VSpace per differentiable type (A1.types), container layout (A2.layout).",
         ),
         "C06": (
             [kt.trace_fn, kt.wrapper, kt.notrace_wrapper, kt.find_top, kt.new_trace, km.wrap_namespace, ka.arraybox_table, a1.methods, ka.operators, ka.wrapper_signatures, km.axis_normalisation_consistency, kc.inplace_sites],
@@ -103,9 +104,9 @@ def _analyses():
             "list resets on strictly greater / appends on equal (A12.top), dependence by id equality, re-entry of the wrapper for lower levels, answer boxed with the arguments' trace (A13.unbox).",
         ),
         "C09": (
-            [a4.vspace, a4.match, a4.match_jvp, a4.modulus, a5_factor.agree, ka.operators],
+            [a4.vspace, a4.match, a4.match_jvp, a4.modulus, a5_factor.agree, ka.operators, a4_dtype.dtype_comparisons],
             "Complex convention: ComplexArrayVSpace overrides (conjugating covector, real inner product, size 2n, two basis vectors per entry), kind plumbing of VJPs/JVPs for every "
-            "real/complex assignment (A4), conjugation placement in modulus-family rules (A4.modulus), VJP/JVP factor agreement (holomorphic ufuncs: no conjugate in either table), holomorphic_grad = grad(real o f).",
+            "real/complex assignment (A4), conjugation placement in modulus-family rules (A4.modulus), no real/complex decision by comparing a dtype with the Python type `complex` (A4.dtypecmp: true for complex128 only), VJP/JVP factor agreement (holomorphic ufuncs: no conjugate in either table), holomorphic_grad = grad(real o f).",
         ),
         "C10": (
             [kc.ownership, kc.purity, kc.inplace_sites, kc.closure_reuse, kc.backward_pass, km.container_vspaces],
@@ -149,10 +150,10 @@ def _analyses():
             "registration slots and wrapper hand-over (A2.slot), whole-argnums rules map element-wise (A2.argnums), argnums= honoured, 'same'/def_linear substitute at argnum, checkpoint wiring (A15).",
         ),
         "C18": (
-            [kck.checker],
+            [kck.checker, kck.rng_independence],
             "Gradient checker, structural clauses only: check_grads reaches the comparison of each requested mode at each requested order and recurses on the derivative closure of the same mode (A18.modes); "
             "check_vjp asserts the adjoint identity between the reverse-mode rule and the numerical JVP on one pair of random vectors, check_jvp / check_equivalent compare element [1] of the forward-mode rule with the numerical JVP on the same direction and assert equal spaces (A18.compare); "
-            "the numerical JVP is a symmetric difference with matching scale (A18.numjvp); scalar_close uses small positive tolerances (A18.tol).",
+            "the numerical JVP is a symmetric difference with matching scale (A18.numjvp); scalar_close uses small positive tolerances (A18.tol); the random probes are successive draws of one running stream - nothing under autograd/ seeds or restores a generator state (A18.rng).",
         ),
         "C19": (
             [kt.global_effects, kt.trace_id_uses, kt.new_trace, kc.closure_reuse, kc.backward_pass, kc.zero_paths],
